@@ -26,6 +26,14 @@ type wireObserver struct {
 	sid      uint32
 	stream   bool
 	mtuModel func() int // largest datagram the session may emit now
+	// clock, when set, gives the (virtual) emission time in ms: parity may only be
+	// skipped when the group's last data packet came >= 500 ms after the previous
+	// data packet (the documented rule); anything else weakens FEC
+	clock        func() int64
+	lastDataAt   int64
+	haveDataAt   bool
+	expectParity bool
+	gapAtClose   int64
 
 	segs     map[uint32][]byte // PUSH payload by sn (first sighting)
 	nextSn   uint32
@@ -122,6 +130,20 @@ func (o *wireObserver) fecID(f *wire.Frame) error {
 		}
 		if f.SeqID != want && f.SeqID != alt {
 			return fmt.Errorf("FEC id %d follows id %d (want %d, or %d after a skipped parity block)", f.SeqID, o.lastID, want, alt)
+		}
+	}
+	if o.clock != nil {
+		if o.expectParity && o.haveID && f.SeqID != (o.lastID+1)%o.paws {
+			return fmt.Errorf("parity block of the group ending at id %d was skipped although its last two data packets were only %d ms apart (parity is skipped only for gaps >= 500 ms): FEC protection weakened", o.lastID, o.gapAtClose)
+		}
+		o.expectParity = false
+		if f.Type == wire.TypeData {
+			now := o.clock()
+			if pos == o.d-1 { // this data packet completes its group
+				o.gapAtClose = now - o.lastDataAt
+				o.expectParity = o.haveDataAt && o.gapAtClose < 500
+			}
+			o.lastDataAt, o.haveDataAt = now, true
 		}
 	}
 	o.haveID, o.lastID = true, f.SeqID
